@@ -189,14 +189,13 @@ Inductive fres := Skip | Loaded (id:N) | Fail.
 Definition ext_lost (nm:str) (k:fkind) : bool :=
   let n := match k with KSrc => 3%nat | _ => 4%nat end in
   forallb (N.eqb 46) (firstn (length nm - n) nm).
-(* util.load_python_file + `module.revision`.  ".pyo" is not a suffix any importlib loader accepts
-   (BYTECODE_SUFFIXES == [".pyc"]): spec_from_file_location returns None and `assert spec` fails. *)
+(* util.load_python_file + `module.revision`.  No importlib loader is registered for ".pyo", load_module_py then
+   uses SourcelessFileLoader explicitly: a .pyo holding valid byte code loads like a .pyc. *)
 Definition load_python_file (nm:str) (k:fkind) (c:node) : fres :=
   if ext_lost nm k then Fail
-  else match k, c with
-       | KO, _ => Fail
-       | _, File (Some id) => Loaded id
-       | _, _ => Fail
+  else match c with
+       | File (Some id) => Loaded id
+       | _ => Fail
        end.
 Definition from_filename (T:node) (sl:bool) (le:lentry) : fres :=
   let '(d, nm, c) := le in
